@@ -228,6 +228,12 @@ func (c *Ctx) VerifyFunc(pkgPath, key string) (rep *FuncReport) {
 		// never assumed by callers) are checked on the body
 		if len(con.Ensures) > 0 {
 			c.cover(rn, r.st)
+			if r.pos.IsValid() {
+				// the probe carries its return's position, so that an expected_unreachable entry keyed by the source line
+				// ("F#cover/site:<line>") follows the statement when return ordinals shift
+				pp := c.P.Fset.Position(r.pos)
+				c.Obs[len(c.Obs)-1].Pos = fmt.Sprintf("%s:%d", strings.TrimPrefix(pp.Filename, c.P.RepoDir+"/"), pp.Line)
+			}
 		}
 		for i, en := range con.Ensures {
 			if con.Trusted && !en.Local {
